@@ -32,6 +32,7 @@ import (
 	ctestutil "go.sia.tech/coreutils/testutil"
 	"go.sia.tech/hostd/v2/host/contracts"
 	"go.sia.tech/hostd/v2/host/storage"
+	"go.sia.tech/hostd/v2/index"
 	"go.uber.org/zap"
 )
 
@@ -1343,6 +1344,56 @@ func (w *vrWorld) finalLooks() {
 	for _, id := range w.order2 {
 		w.look(id, true)
 	}
+}
+
+// resolveOnChain: the chain confirms every live contract and resolves about half of them (storage
+// proof / missed proof, v2: resolution or expiration) while their proof windows are still open:
+// rows, signed revisions and sector lists stay exactly as they are — a resolved contract keeps
+// its sectors until they expire — so the looks and the restart that follow must see the same lists.
+// (Not a model step: the model has no chain status.)
+func (w *vrWorld) resolveOnChain() {
+	var sc1, sc2 contracts.StateChanges
+	n := 0
+	for _, id := range w.order1 {
+		if w.supers[id] {
+			continue
+		}
+		sc1.Confirmed = append(sc1.Confirmed, types.FileContractElement{ID: id})
+		switch w.rng.Intn(4) {
+		case 0:
+			sc2.Successful = append(sc2.Successful, id)
+			n++
+		case 1:
+			sc2.Failed = append(sc2.Failed, id)
+			n++
+		}
+	}
+	for _, id := range w.order2 {
+		c := w.v2[id]
+		if w.supers[id] || c == nil {
+			continue
+		}
+		sc1.ConfirmedV2 = append(sc1.ConfirmedV2, types.V2FileContractElement{ID: id, StateElement: types.StateElement{LeafIndex: w.cN(id)}, V2FileContract: c.cur})
+		switch w.rng.Intn(4) {
+		case 0:
+			sc2.SuccessfulV2 = append(sc2.SuccessfulV2, id)
+			n++
+		case 1:
+			sc2.FailedV2 = append(sc2.FailedV2, id)
+			n++
+		}
+	}
+	for k, sc := range []contracts.StateChanges{sc1, sc2} {
+		idx := types.ChainIndex{Height: uint64(5 + k), ID: types.BlockID{0xc3, byte(k)}}
+		_, err, pan := vrCall(func() error {
+			return w.store.UpdateChainState(func(tx index.UpdateTx) error { return tx.ApplyContracts(idx, sc) })
+		})
+		if err != nil || pan != nil {
+			w.em.Count("resolve-on-chain:refused")
+			return
+		}
+	}
+	w.em.Count(fmt.Sprintf("resolve-on-chain:resolved=%d", n))
 }
 
 func proto4Usage() proto4.Usage { return proto4.Usage{} }
